@@ -5,7 +5,7 @@ from typing import *
 from adsg_core.optimization.assign_enc.matrix import *
 from adsg_core.optimization.assign_enc.encoding import *
 
-__all__ = ['LazyImputer', 'LazyEncoder', 'DesignVector', 'DiscreteDV', 'NodeExistence', 'X_INACTIVE_VALUE',
+__all__ = ['LazyImputer', 'LazyEncoder', 'InvalidDesignVariables', 'DesignVector', 'DiscreteDV', 'NodeExistence', 'X_INACTIVE_VALUE',
            'QuasiLazyEncoder', 'DetectedHighImpRatio']
 
 
@@ -88,6 +88,10 @@ class LazyImputer:
         raise NotImplementedError
 
 
+class InvalidDesignVariables(RuntimeError):
+    pass
+
+
 class LazyEncoder(Encoder):
     """Encoder that skips the matrix-generation step (so it might be better suited for large numbers of connections) by
     relying on two-way design variable encoders."""
@@ -110,7 +114,8 @@ class LazyEncoder(Encoder):
         self._design_vars = dvs = self._merge_design_vars(list(existence_dvs.values()))
         for i, dv in enumerate(dvs):
             if dv.n_opts < 2:
-                raise RuntimeError(f'All design variables must have at least 2 options: {i} has {dv.n_opts} opts')
+                raise InvalidDesignVariables(
+                    f'All design variables must have at least 2 options: {i} has {dv.n_opts} opts')
 
         self._imputer.initialize(self._matrix_gen, self._existence_design_vars, self._design_vars, self._decode)
         self._empty_matrix = None
